@@ -23,7 +23,7 @@ def pairs_equal(ctx, pairs, res, family, peers=("1", "2"), label="C08", what="in
                         {"level": "sim", "family": family, "scenario": d.render(), "clean": c.render(), "label": label})
                 break
 
-def generic_run(ctx, labels, plan, needed_consts=(), extra=None, pair_what="injected packets", pair_fields=None, known_class=None):
+def generic_run(ctx, labels, plan=(), needed_consts=(), extra=None, pair_what="injected packets", pair_fields=None, known_class=None):
     """plan: list of (family name, generator call returning list of Scen or list of pairs)."""
     ctx.needed_consts = list(needed_consts)
     ctx.proof_side()
